@@ -36,7 +36,7 @@ def keyfn(e, clause):
 def model(ctx: Ctx) -> None:
     """MC_Generate, and every component triple of the model through the real from_components /
     generate running on a scratch table that holds the model's four layouts."""
-    sigma = [49, 32] if ctx.quick else [49, 97, 32]
+    sigma = [48, 49] if ctx.quick else [48, 49, 32]      # '0' matters: padding vs supplied zeros
     cfg = tlc.write_cfg(ctx.wd / "MC_Generate.cfg",
                         [ln if not ln.startswith("CONSTANT") else "CONSTANT Sigma = {" + ", ".join(map(str, sigma)) + "}"
                          for ln in (SPEC / "MC_Generate.cfg").read_text().splitlines()])
@@ -99,6 +99,9 @@ def run(ctx: Ctx) -> dict:
             bank = c08.field_chars(row, "bank_code", rng, rng.choice([wb, wb, max(wb - 1, 1)]))
             branch = c08.field_chars(row, "branch_code", rng, rng.choice([wr, wr, max(wr - 1, 0)])) if wr else ""
             acct = c08.field_chars(row, "account_code", rng, rng.choice([wa, wa, max(wa - 2, 1), 1]))
+            if i % 5 == 4:          # formatted input: white space inside (possibly short) components
+                acct = acct[:1] + " " + acct[1:]
+                bank = bank[:1] + " " + bank[1:] if i % 10 == 9 else bank
             ops.append({"op": "iban.generate", "cc": cps(cc), "bank": cps(bank), "branch": cps(branch),
                         "acct": cps(acct)})
         for seed in range(per // 2):
